@@ -5,6 +5,7 @@ import (
 	"encoding/json"
 	"fmt"
 	"runtime"
+	"runtime/debug"
 	"sort"
 	"strings"
 	"sync"
@@ -165,6 +166,7 @@ type Case struct {
 	Order    []hist.Key     `json:"order,omitempty"`
 	Versions map[string]int `json:"versions,omitempty"`
 	Profile  int            `json:"profile"`
+	OptOps   []optOp        `json:"opt_ops,omitempty"`
 }
 
 func poolByName(name string, quick bool) *hist.Pool {
@@ -392,7 +394,15 @@ func runBodies(c *mc.Ctx, r *mc.Result, name string, p *hist.Pool, seedMax, body
 	probes := probesFor(p)
 	var mu sync.Mutex
 	ns, na, stopped := c02.ForEachBody(c, name, p, seedMax, bodyLen, func(bc c02.Case) {
-		msg := compareBody(p, probes, bc, false)
+		msg := func() (msg string) {
+			// a panic of the implementation (or of the tree dump on a malformed tree) is a finding, not a crash
+			defer func() {
+				if pv := recover(); pv != nil {
+					msg = fmt.Sprintf("panic while running or observing the transaction body: %v\n%s", pv, mc.NormStack(string(debug.Stack()), 12))
+				}
+			}()
+			return compareBody(p, probes, bc, false)
+		}()
 		mu.Lock()
 		r.Evaluations++
 		r.Transitions += int64(len(bc.Body))
@@ -487,6 +497,7 @@ func run(c *mc.Ctx, r *mc.Result) {
 		add(func(r *mc.Result) { runBodies(c, r, "nested", c02.NestPool(), 2, 2) })
 		add(func(r *mc.Result) { runBodies(c, r, "hosts", c02.HostPool(), 2, 2) })
 		add(func(r *mc.Result) { runBodies(c, r, "methods", c02.MethodPool(), 2, 2) })
+		add(func(r *mc.Result) { runOptionHistories(c, r) })
 	} else {
 		add(func(r *mc.Result) { runPool(c, r, "prefixes", c02.PoolFor(true), 3, 3, 400000) })
 		add(func(r *mc.Result) { runPool(c, r, "methods", c02.MethodPool(), 4, 4, 100000) })
@@ -499,6 +510,7 @@ func run(c *mc.Ctx, r *mc.Result) {
 		add(func(r *mc.Result) { runBodies(c, r, "nested", c02.NestPool(), 3, 2) })
 		add(func(r *mc.Result) { runBodies(c, r, "hosts", c02.HostPool(), 3, 2) })
 		add(func(r *mc.Result) { runBodies(c, r, "methods", c02.MethodPool(), 3, 2) })
+		add(func(r *mc.Result) { runOptionHistories(c, r) })
 		add(func(r *mc.Result) { runBodies(c, r, "nested", c02.NestPool(), 2, 3) })
 		add(func(r *mc.Result) { runBodies(c, r, "siblings", c02.SiblingPool(), 2, 3) })
 	}
@@ -523,10 +535,114 @@ func run(c *mc.Ctx, r *mc.Result) {
 	}
 }
 
+// option histories: routes whose registered set includes their trailing-slash option. Every sequence of <=3
+// operations over {Handle, Update with {no option, ignore, redirect}, Delete} x 3 patterns, then a fresh router
+// holding the same (pattern, option) pairs: both must route alike under every profile. (Update drops the options it
+// is not given again: the route falls back to the router-wide mode.)
+type optOp struct {
+	Kind    string `json:"k"` // handle | update | delete
+	Pattern string `json:"p"`
+	Opt     int    `json:"o"` // 0 none, 1 ignore, 2 redirect
+}
+
+func (o optOp) String() string {
+	return fmt.Sprintf("%s(%s, %s)", o.Kind, o.Pattern, []string{"no option", "ignore", "redirect"}[o.Opt])
+}
+
+var optPatterns = []string{"/a", "/a/", "/a/{x}/"}
+
+func optRouteOpts(o int) []fox.RouteOption {
+	switch o {
+	case 1:
+		return []fox.RouteOption{fox.WithIgnoreTrailingSlash(true)}
+	case 2:
+		return []fox.RouteOption{fox.WithRedirectTrailingSlash(true)}
+	}
+	return nil
+}
+
+func compareOptHistory(ops []optOp, prof int) string {
+	h, err := fox.New(profiles[prof]...)
+	if err != nil {
+		panic(err)
+	}
+	model := map[string]int{}
+	for _, o := range ops {
+		switch o.Kind {
+		case "handle":
+			if _, err := h.Handle("GET", o.Pattern, fx.VerHandler(1), optRouteOpts(o.Opt)...); err == nil {
+				model[o.Pattern] = o.Opt
+			}
+		case "update":
+			if _, err := h.Update("GET", o.Pattern, fx.VerHandler(1), optRouteOpts(o.Opt)...); err == nil {
+				model[o.Pattern] = o.Opt
+			}
+		case "delete":
+			if _, err := h.Delete("GET", o.Pattern); err == nil {
+				delete(model, o.Pattern)
+			}
+		}
+	}
+	c, _ := fox.New(profiles[prof]...)
+	for _, p := range optPatterns {
+		if o, ok := model[p]; ok {
+			if _, err := c.Handle("GET", p, fx.VerHandler(1), optRouteOpts(o)...); err != nil {
+				panic(err)
+			}
+		}
+	}
+	var probes []Probe
+	for _, m := range []string{"GET", "POST", "OPTIONS"} {
+		for _, p := range []string{"/a", "/a/", "/a/v", "/a/v/", "/b"} {
+			probes = append(probes, Probe{m, "", p})
+		}
+	}
+	if d := diff(observe(h, probes), observe(c, probes), probes); d != "" {
+		return fmt.Sprintf("two routers holding the same routes with the same trailing-slash options %v route differently (profile %s): %s\n    history: %v", model, profileName(prof), d, ops)
+	}
+	return ""
+}
+
+func runOptionHistories(c *mc.Ctx, r *mc.Result) {
+	var alpha []optOp
+	for _, p := range optPatterns {
+		for o := 0; o < 3; o++ {
+			alpha = append(alpha, optOp{"handle", p, o}, optOp{"update", p, o})
+		}
+		alpha = append(alpha, optOp{"delete", p, 0})
+	}
+	r.Bounds["option-histories"] = fmt.Sprintf("every sequence of <=3 operations over %d (Handle/Update with no/ignore/redirect option, Delete on %v) x 3 profiles, against a fresh router holding the same (pattern, option) pairs", len(alpha), optPatterns)
+	var rec func(cur []optOp)
+	rec = func(cur []optOp) {
+		if len(cur) > 0 {
+			for prof := range profiles {
+				r.Evaluations++
+				r.TracesValidated++
+				if len(cur) > 1 {
+					r.DistinctNontrivial++
+				}
+				if msg := compareOptHistory(cur, prof); msg != "" {
+					r.Violate("histories", "history-dependent", msg, Case{Pool: "option-histories", OptOps: append([]optOp{}, cur...), Profile: prof})
+				}
+			}
+		}
+		if len(cur) == 3 {
+			return
+		}
+		for _, o := range alpha {
+			rec(append(cur, o))
+		}
+	}
+	rec(nil)
+}
+
 func replay(c *mc.Ctx, raw json.RawMessage) string {
 	var cs Case
 	if err := json.Unmarshal(raw, &cs); err != nil {
 		return "bad case"
+	}
+	if cs.Pool == "option-histories" {
+		return compareOptHistory(cs.OptOps, cs.Profile)
 	}
 	if cs.Pool == "fan-orders" {
 		rr := mc.NewResult()
